@@ -99,7 +99,7 @@ def earlier_run(w, pre):
 
 def run_case(case):
     from vlib.prog import World
-    w = World({'handlers': case['handlers']})
+    w = World({'handlers': case['handlers'], 'mk': case.get('mk')})
     if case.get('earlier_run'):
         why = earlier_run(w, case['earlier_run'])
         if why:
@@ -378,6 +378,8 @@ def gen_case(rng):
     if rng.random() < 0.25:
         return gen_suspending_case(rng)
     case = gen_plain_case(rng)
+    if rng.random() < 0.2:
+        case['mk'] = rng.choice(['attr', 'renamed'])   # events whose name is not their class name
     r = rng.random()
     if r < 0.25:
         case['drive'] = 'tick'
